@@ -53,6 +53,7 @@ def launch(doc, hashseed, verif_dir, cwd="/", lc_all="C", timeout=900):
                          stdin=subprocess.PIPE, stdout=subprocess.PIPE, stderr=subprocess.PIPE, cwd=cwd, env=env)
     p.stdin.write(json.dumps(doc).encode())
     p.stdin.close()
+    p.stdin = None          # already fed and closed: communicate() must not touch it again
     p._htsim_args = args
     return p
 
